@@ -793,6 +793,15 @@ def run_binary(binary, lines, timeout=900):
     return outs, crashed, hdr
 
 
+def isolate(case):
+    v, op, fk, p, a = case
+    if op in ("add_s", "sub_s") and a[0] and not norm(a[0]):
+        return True
+    if op == "power_compose" and not norm(a[0]):
+        return True
+    return False
+
+
 def run_model_parallel(drv, lines, nproc=6):
     """the cases are independent: deal them round-robin to nproc model processes"""
     if len(lines) < 200:
@@ -835,7 +844,20 @@ def run_stream(chk, label, bins, tag, drv, cases, kthr, sthr, stats):
         if b is None:
             return fk, None, [], None
         lines = ["%s %s %d %d %d %s\n" % (cases[i][0], fk, cases[i][3], kthr, sthr, tok_args(cases[i][1], cases[i][4])) for i in idx]
-        outs, crashed, hdr = run_binary(b, lines)
+        # cases on which the unrepaired code has undefined behaviour (out-of-bounds write) run in a process of their own,
+        # so that a corrupted heap cannot falsify the verdict of a later case
+        iso = [j for j, i in enumerate(idx) if isolate(cases[i])]
+        rest = [j for j in range(len(idx)) if j not in set(iso)]
+        outs = [None] * len(idx)
+        crashed = []
+        o2, cr2, hdr = run_binary(b, [lines[j] for j in rest])
+        for k, j in enumerate(rest):
+            outs[j] = o2[k]
+        crashed += [(rest[k], rc) for k, rc in cr2]
+        for j in iso:
+            o1, cr1, _ = run_binary(b, [lines[j]], timeout=120)
+            outs[j] = o1[0]
+            crashed += [(j, rc) for _, rc in cr1]
         return fk, outs, crashed, hdr
     with ThreadPoolExecutor(max_workers=6) as ex:
         for fk, outs, crashed, hdr in ex.map(run_field, sorted(byfield)):
